@@ -33,12 +33,18 @@ CONSTANTS Fix,        \* FALSE = pinned code, TRUE = repaired
           Families,   \* subset of {"rsa", "ecdsa", "ed25519"}
           EnabledChoice,   \* "all" = every subset of the family's names, "few" = full set and full minus one name
           ExchChoice,      \* "initial" = the first key exchange only, "all" = also re-exchanges started by either peer
+          BannerChoice,    \* "default" = the peer identifies as paramiko, "all" = server-side RSA requests also under
+                           \* the client identification strings in Banners (the verdict must not depend on it)
           ProbeChoice,     \* "none" = signed requests only, "all" = also every probe-then-sign sequence (server)
-          Mut         \* "none" | "no_enabled_check" | "probe_caches_key" | "algcheck_first_exchange_only" (sensitivity)
+          Mut         \* "none" | "no_enabled_check" | "probe_caches_key" | "algcheck_first_exchange_only" | "sigtype_compat" (sensitivity)
 
 RSA   == {"ssh-rsa", "rsa-sha2-256", "rsa-sha2-512"}
 ECDSA == {"ecdsa-sha2-nistp256", "ecdsa-sha2-nistp384", "ecdsa-sha2-nistp521"}
 ED    == {"ssh-ed25519"}
+\* client identification strings a request may arrive under; OpenSSH 7.2 - 7.7 clients are the ones sshd grants
+\* its SSH_BUG_SIGTYPE tolerance to
+Banners     == {"paramiko", "openssh_7_2", "openssh_7_4", "openssh_7_7", "openssh_8_9", "putty"}
+SigtypeBug  == {"openssh_7_2", "openssh_7_4", "openssh_7_7"}
 Names(f) == CASE f = "rsa" -> RSA [] f = "ecdsa" -> ECDSA [] f = "ed25519" -> ED
 Family(a) == CASE a \in RSA -> "rsa" [] a \in ECDSA -> "ecdsa" [] a \in ED -> "ed25519" [] OTHER -> "foreign"
 \* a name of another family, used as a mismatched blob name
@@ -51,9 +57,10 @@ EnabledSets(f) == IF EnabledChoice = "all" THEN SUBSET Names(f)
 VARIABLES side, fam, decl, cert, sign, blob, enabled,    \* the case (constant along a behaviour)
           exch,     \* client side: which key exchange carries the signature: "initial" | "rekey_client" | "rekey_server"
                     \* (a re-exchange follows an honest initial one; the same algorithm is negotiated again)
+          banner,   \* class of the PEER's identification string (Transport.remote_version) - chosen by the peer
           probe,    \* "none", or the algorithm named by the unsigned probe sent first (server side)
           phase     \* "start" | "probed" | "declared_ok" | "key_loaded" | "accepted" | "rejected"
-vars == <<side, fam, decl, cert, sign, blob, enabled, probe, exch, phase>>
+vars == <<side, fam, decl, cert, sign, blob, enabled, probe, exch, banner, phase>>
 
 Init == /\ side \in Sides /\ fam \in Families
         /\ decl \in Names(fam) /\ cert \in CertForms(fam)
@@ -62,6 +69,8 @@ Init == /\ side \in Sides /\ fam \in Families
         /\ enabled \in EnabledSets(fam)
         /\ exch \in {"initial"} \cup (IF side = "client" /\ ExchChoice = "all" THEN {"rekey_client", "rekey_server"} ELSE {})
         /\ probe \in {"none"} \cup (IF side = "server" /\ ProbeChoice = "all" THEN Names(fam) ELSE {})
+        /\ banner \in {"paramiko"} \cup (IF side = "server" /\ fam = "rsa" /\ probe = "none" /\ BannerChoice = "all"
+                                        THEN Banners ELSE {})
         /\ phase = "start"
 
 (* unsigned request: _generate_key_from_request + check_auth_publickey, then PK_OK; an algorithm that is not   *)
@@ -70,7 +79,7 @@ SessionAlive(pr, en) == pr = "none" \/ pr \in en
 Probe ==
     /\ phase = "start" /\ probe # "none"
     /\ phase' = IF SessionAlive(probe, enabled) THEN "probed" ELSE "rejected"
-    /\ UNCHANGED <<side, fam, decl, cert, sign, blob, enabled, probe, exch>>
+    /\ UNCHANGED <<side, fam, decl, cert, sign, blob, enabled, probe, exch, banner>>
 
 (* client: the algorithm is negotiated from the client's own enabled list (C05);                       *)
 (* server: _generate_key_from_request refuses an algorithm that is not in preferred_pubkeys            *)
@@ -81,14 +90,14 @@ CheckDeclared ==
                    \/ Mut = "no_enabled_check"
                    \/ (Mut = "probe_caches_key" /\ phase = "probed")
                 THEN "declared_ok" ELSE "rejected"
-    /\ UNCHANGED <<side, fam, decl, cert, sign, blob, enabled, probe, exch>>
+    /\ UNCHANGED <<side, fam, decl, cert, sign, blob, enabled, probe, exch, banner>>
 
 (* _key_info[decl](Message(blob)): the key class of decl's family parses the presented key; the ECDSA   *)
 (* class accepts every curve, whatever curve decl names                                                *)
 LoadKey ==
     /\ phase = "declared_ok"
     /\ phase' = IF Family(sign) = Family(decl) THEN "key_loaded" ELSE "rejected"
-    /\ UNCHANGED <<side, fam, decl, cert, sign, blob, enabled, probe, exch>>
+    /\ UNCHANGED <<side, fam, decl, cert, sign, blob, enabled, probe, exch, banner>>
 
 (* key.verify_ssh_sig(data, sig): RSA picks the hash named by the blob, ECDSA / Ed25519 compare the blob  *)
 (* with the key's own name; a genuine signature made with `sign` verifies exactly when that is `sign`    *)
@@ -97,9 +106,14 @@ VerifySig ==
     /\ phase = "key_loaded"
     \* seeded error "algcheck_first_exchange_only": the comparison with the negotiated algorithm sits in the
     \* first-exchange arm of _verify_key
-    /\ phase' = IF (Fix /\ ~(Mut = "algcheck_first_exchange_only" /\ exch # "initial") => blob = decl) /\ KeyAccepts
+    \* seeded error "sigtype_compat": for clients announcing OpenSSH 7.2-7.7 a request naming ssh-rsa may carry an
+    \* rsa-sha2-* signature
+    /\ phase' = IF (Fix /\ ~(Mut = "algcheck_first_exchange_only" /\ exch # "initial")
+                       /\ ~(Mut = "sigtype_compat" /\ banner \in SigtypeBug /\ decl = "ssh-rsa"
+                            /\ blob \in {"rsa-sha2-256", "rsa-sha2-512"})
+                    => blob = decl) /\ KeyAccepts
                 THEN "accepted" ELSE "rejected"
-    /\ UNCHANGED <<side, fam, decl, cert, sign, blob, enabled, probe, exch>>
+    /\ UNCHANGED <<side, fam, decl, cert, sign, blob, enabled, probe, exch, banner>>
 
 Next == Probe \/ CheckDeclared \/ LoadKey \/ VerifySig
 Spec == Init /\ [][Next]_vars
@@ -121,5 +135,5 @@ Exact        == phase = "accepted" => MayAccept(decl, sign, blob, enabled)
 Complete     == phase = "rejected" => ~MayAccept(decl, sign, blob, enabled) \/ ~SessionAlive(probe, enabled)
 
 Final == phase \in {"accepted", "rejected"}
-Emit  == Final => PrintT(<<"CASE", side, fam, decl, cert, sign, blob, enabled, phase, probe, exch>>)
+Emit  == Final => PrintT(<<"CASE", side, fam, decl, cert, sign, blob, enabled, phase, probe, exch, banner>>)
 =============================================================================
